@@ -261,7 +261,7 @@ PROPS = {
                      "LikeTruth (spec/Clause.tla): matcher selection and literal prefix/suffix/infix/equality on byte sequences, upper-casing through a logged table of strings.ToUpper, "
                      "regular expressions through the logged verdicts of Go's regexp for every candidate anchoring, of which the specification selects the prescribed one.",
                 note=TV_NOTE + " strings.ToUpper and regexp (standard library) are the references named by the property; only which text is matched against which regular expression is decided by the specification.",
-                technique="TLA+ matcher-selection model (LikeMC.tla, TLC exhaustive, scenarios replayed) + specification (Clause.tla LikeTruth) + TLC trace validation of harness executions",
+                technique="TLA+ matcher-selection and upper-casing-buffer models (LikeMC.tla, UpperBuf.tla; TLC exhaustive, scenarios replayed) + specification (Clause.tla LikeTruth) + TLC trace validation of harness executions",
                 rule="random UTF-8 cells x patterns derived from cells; non-trivial = a like/ilike filter event; distinct by (pattern, column, result digest)"),
     "C10": dict(level="model_checking", nontrivial=nt_c10,
                 mc=[dict(name="ErrMonad", module="ErrMonad.tla", cfg="ErrMonadMC.cfg", timeout=900),
